@@ -31,6 +31,38 @@ class Script:
   es = property(lambda self: self._get('es'), lambda self, v: self._set('es', v))
 
 
+def failure_text(how, base):
+  """The text of a scripted algorithm failure (same variants as svcreal.ScriptedPythia): texts that every
+  transport has to carry - one that is not valid UTF-8, one that is long and multi-byte at every offset."""
+  if how == 'surrogate-message':
+    return base + ' bad \ud800 name'
+  if how and how.startswith('long-message:'):
+    return 'x' * int(how.split(':')[1]) + 'gr\u00f6\u00dfe \u4e2d\u6587 \U0001f600 ' * 900
+  return base
+
+
+class DeadlineStub:
+  """A gRPC stub whose calls carry a deadline: a server that never answers (a handler that died while
+  reporting an error, a lock held for ever) shows as DEADLINE_EXCEEDED instead of hanging the check; once
+  one call ran into it the later ones are answered the same way without waiting again."""
+
+  def __init__(self, stub, seconds=25.0):
+    self._stub, self._seconds, self._wedged = stub, seconds, False
+
+  def __getattr__(self, name):
+    method = getattr(self._stub, name)
+
+    def call(request, timeout=None, **kw):
+      import grpc
+      try:
+        return method(request, timeout=1.0 if self._wedged else (timeout or self._seconds), **kw)
+      except grpc.RpcError as e:
+        if e.code() == grpc.StatusCode.DEADLINE_EXCEEDED:
+          self._wedged = True
+        raise
+    return call
+
+
 def policy_factory(script):
   class ScriptedPolicy(pythia.Policy):
     def __init__(self, supporter):
@@ -40,7 +72,7 @@ def policy_factory(script):
       script.suggest_calls += 1
       a = script.alg
       if a['kind'] in ('rpc', 'other'):
-        raise svcreal.AlgorithmFailure('scripted failure')
+        raise svcreal.AlgorithmFailure(failure_text(a.get('how'), 'scripted failure'))
       sugg = []
       for s in a['sugg']:
         ts = vz.TrialSuggestion({'x': float(s['params'])})
@@ -53,7 +85,7 @@ def policy_factory(script):
       script.es_calls += 1
       e = script.es
       if e['kind'] == 'raise':
-        raise svcreal.AlgorithmFailure('scripted early-stop failure')
+        raise svcreal.AlgorithmFailure(failure_text(e.get('how'), 'scripted early-stop failure'))
       ds = [pythia.EarlyStopDecision(id=i, reason='r', should_stop=bool(st)) for i, st in e['decisions']]
       return pythia.EarlyStopDecisions(decisions=ds, metadata=svcreal.ScriptedPythia._delta(e.get('delta', [])))
 
@@ -89,7 +121,7 @@ def hosted_policy_factory(script):
       self.k += 1
       a = script.alg
       if a['kind'] in ('rpc', 'other'):
-        raise svcreal.AlgorithmFailure('scripted failure')
+        raise svcreal.AlgorithmFailure(failure_text(a.get('how'), 'scripted failure'))
       return [vz.TrialSuggestion({'x': float(s['params'])}) for s in a['sugg']]
 
     def dump(self):
@@ -128,7 +160,7 @@ class Deployment:
       cls = vizier_server.DefaultVizierServer if kind == 'grpc' else vizier_server.DistributedPythiaVizierServer
       self.server = cls(database_url=url, policy_factory=fac, early_stop_recycle_period=period)
       self.servicer = self.server._servicer  # pylint: disable=protected-access
-      self.api = self.server.stub
+      self.api = DeadlineStub(self.server.stub)
     self.ds = self.servicer.datastore
 
   def runner(self):
